@@ -19,7 +19,7 @@ def main() -> int:
     prop = args.prop.upper()
     seed = int(os.environ.get("VERIF_SEED", "0") or 0)
     from .world import HarnessError
-    from .explore import unjson
+    from .explore import WorkerDied, unjson
     from .wire import Reject
 
     try:
@@ -41,6 +41,18 @@ def main() -> int:
         # only reachable from --replay (the explorers turn it into a verdict themselves)
         print(f"VIOLATION reproduced: the instance transmitted a datagram that the independent RFC 1035 decoder rejects ({e})")
         return 1
+    except WorkerDied as e:
+        from .evidence import finish
+        from .explore import Stats, Violation
+        st = Stats()
+        st.executions = 1
+        st.exhaustive = False
+        st.caps.append("a worker process died (memory exhausted or interpreter crash) while executing the code under test")
+        st.violations.append(Violation(f"{prop}: {e} - the code under test exhausts memory or crashes the interpreter",
+                                       {"problems": ["worker-died"]}, {"check": "nonterminating"}))
+        st.outcome("worker-died")
+        st.outcome("none")
+        return finish(prop, args.tier, seed, st, time.time(), "run aborted", [], {}, mod.TECHNIQUE)
     except HarnessError as e:
         print(f"HARNESS-ERROR: {e}")
         traceback.print_exc()
